@@ -1154,3 +1154,127 @@ func (t *txCounter) maxFlagFalse(g *ssa.Function) int {
 	t.memoF[g] = v
 	return v
 }
+
+// ---------------------------------------------------------------- TXW1
+
+// mustWriteMeta: every path of g to a possibly-nil error return passes a call of
+// the catalog writer (directly or through a callee for which the same holds).
+func (c *Ctx) mustWriteMeta(g *ssa.Function, busy map[*ssa.Function]bool) bool {
+	if g == nil || len(g.Blocks) == 0 || busy[g] {
+		return false
+	}
+	r := c.Roles()
+	if r.isMetaWriter(g) {
+		return true
+	}
+	busy[g] = true
+	defer delete(busy, g)
+	cut := map[*ssa.BasicBlock]bool{}
+	for _, b := range g.Blocks {
+		for _, in := range b.Instrs {
+			call, ok := in.(*ssa.Call)
+			if !ok {
+				continue
+			}
+			if h := staticCallee(call); h != nil && c.IsLib(c.declared(h)) && c.mustWriteMeta(c.declared(h), busy) {
+				cut[b] = true
+			}
+		}
+	}
+	return c.successWithoutCut(g, []edge2{{nil, g.Blocks[0]}}, cut, nil) == ""
+}
+
+// TXW1: every operation that changes documents or index entries also writes the
+// collection's catalog record before it commits. On badger, transactions are
+// optimistic and only keys that were READ are validated at commit: two bulk
+// updates that go through an index read disjoint index ranges and write
+// disjoint keys, so neither conflicts with the other (x==5 -> 7 and x==7 -> 5
+// both succeed and leave a state no sequential order produces). Every operation
+// reads the catalog record first; if every writer also writes it, any two
+// concurrent writers on a collection conflict and one of them is rejected.
+func ruleTXW1(c *Ctx) []Ob {
+	o := newObs(c, "TXW1")
+	n := 0
+	for _, op := range c.openers() {
+		if op.Kind != "w" || op.Transfer || c.pkgRel(op.Fn) != "" {
+			continue
+		}
+		fn := op.Fn
+		if c.eff(fn)&(EffDocWrite|EffIdxAdd|EffIdxRemove|EffIdxDrop) == 0 {
+			continue
+		}
+		n++
+		key := c.fname(fn) + "/catalog record written by every writer"
+		cut := map[*ssa.BasicBlock]bool{}
+		for _, b := range fn.Blocks {
+			for _, in := range b.Instrs {
+				call, ok := in.(*ssa.Call)
+				if !ok {
+					continue
+				}
+				if h := staticCallee(call); h != nil && c.IsLib(c.declared(h)) && c.mustWriteMeta(c.declared(h), map[*ssa.Function]bool{}) {
+					cut[b] = true
+				}
+			}
+		}
+		// deleting the catalog record is a write of it too
+		for _, s := range c.Roles().model.sinks {
+			if s.Fn == fn && s.Op == "Delete" && c.Roles().CatalogSkel != "" && sinkHasSkel(s, c.Roles().CatalogSkel) {
+				cut[s.Call.Block()] = true
+			}
+		}
+		// from every change of a document or index entry that can happen without the catalog write before it
+		reach := map[*ssa.BasicBlock]bool{}
+		{
+			stack := []*ssa.BasicBlock{op.Call.Block()}
+			for len(stack) > 0 {
+				x := stack[len(stack)-1]
+				stack = stack[:len(stack)-1]
+				if reach[x] || (cut[x] && x != op.Call.Block()) {
+					continue
+				}
+				reach[x] = true
+				stack = append(stack, x.Succs...)
+			}
+		}
+		bad := ""
+		for _, wb := range fn.Blocks {
+			if !reach[wb] || cut[wb] {
+				continue
+			}
+			writes := false
+			for _, in := range wb.Instrs {
+				if call, ok := in.(*ssa.Call); ok && !c.isCommit(call) && c.callEff(call)&(EffDocWrite|EffIdxAdd|EffIdxRemove|EffIdxDrop|EffTxDelete) != 0 {
+					writes = true
+				}
+			}
+			if !writes {
+				continue
+			}
+			var from []edge2
+			for _, s := range wb.Succs {
+				from = append(from, edge2{wb, s})
+			}
+			if b := c.successWithoutCut(fn, from, cut, nil); b != "" {
+				bad = b
+			}
+			// the block itself may end in the success return
+			if ret, ok := wb.Instrs[len(wb.Instrs)-1].(*ssa.Return); ok {
+				if ei := errResultIndex(fn.Signature); ei >= 0 {
+					if ev, has := returnedValue(ret, ei); has && !c.provablyNonNil(fn, ev, wb) {
+						bad = "the success return at " + relPath(c, ret.Pos())
+					}
+				}
+			}
+		}
+		if bad != "" {
+			o.add(VIOLATED, key, relPath(c, op.Call.Pos()), "%s is reachable without the collection's catalog record having been written: on badger a concurrent writer of the same collection that touches other documents and index entries is not in conflict with this transaction, and both commit (write skew through an index)", bad)
+		} else {
+			o.add(OK, key, relPath(c, op.Call.Pos()), "every successful path writes the catalog record, which every operation reads first: concurrent writers of a collection conflict on badger")
+		}
+	}
+	if n == 0 {
+		o.add(UNDECIDED, "writers", "-", "no write operation found")
+	}
+	return o.list
+}
